@@ -192,11 +192,19 @@ def norm_sum_rule(chk, cid, prog, cfgname):
             if x.k == 'Assign' and x.a['op'] == '=' and strip(x.c[0]).k == 'Ref' and strip(x.c[0]).a.get('id') in rets and strip(x.c[1]).k == 'Ref':
                 rets = rets | {strip(x.c[1]).a.get('id')}
         adds = [x for x in f.body.walk() if x.k == 'Assign' and x.a['op'] == '+=' and strip(x.c[0]).k == 'Ref' and strip(x.c[0]).a.get('id') in rets]
+        plain = [x for x in f.body.walk() if x.k == 'Assign' and x.a['op'] == '=' and strip(x.c[0]).k == 'Ref' and strip(x.c[0]).a.get('id') in rets
+                 and strip(x.c[1]).k == 'Binary' and strip(x.c[1]).a['op'] == '+']
+        adds = [(a, strip(a.c[1])) for a in adds]
+        for a in plain:        # s = s + term  /  s = term + s
+            l, r_ = strip(strip(a.c[1]).c[0]), strip(strip(a.c[1]).c[1])
+            if l.k == 'Ref' and l.a.get('id') == strip(a.c[0]).a.get('id'):
+                adds.append((a, r_))
+            elif r_.k == 'Ref' and r_.a.get('id') == strip(a.c[0]).a.get('id'):
+                adds.append((a, l))
         if not adds:
             raise AnalysisBroken('%s: no accumulation into the returned sum found' % f.name)
-        for a in adds:
+        for (a, r) in adds:
             n += 1
-            r = strip(a.c[1])
             inst = '%s:sum-of-moduli@%d' % (f.name, n)
             if r.k == 'Call' and callee_name(r) == mag and len(r.c) == 2:
                 chk.ok(cid, inst, sample=pretty(a)[:60])
